@@ -95,4 +95,15 @@ META = {
         "inside predict",
         ["tie_in_posterior", "order_none", "order_explicit", "order_default"],
     ),
+    "C14": _m(
+        "one evaluation = one simulated run: a Bayesian-network (36%), Markov-network (45%, with a PRNG-chosen rate of repeated value-equal factors and "
+        "unary factors; connected in 70% of runs) or factor-graph (18%) world of <=6 (7) variables, realised in PRNG-chosen insertion orders under the "
+        "worker's hash seed, then 1..4 conversions from {BN->MN, BN->JT, MN->FG, MN triangulate(H1..H6 | explicit order, inplace both ways), MN->JT, "
+        "MN partition function, FG->MN, FG->JT, FG partition function}.  Oracle: product of the target's factors equals the source's brute-force "
+        "joint cell by cell (hence also the partition function and every factor used exactly once), BN->MN graph equals the moral graph, triangulation is a "
+        "chordal supergraph (maximum-cardinality-search test), junction trees are connected trees whose cliques cover every factor scope with the "
+        "running-intersection property and one potential per clique.  Non-trivial = at least one checked conversion; distinct = distinct trace digest.",
+        "faults: relabel / insertion_permute (hash-order scheduler), heuristic / order knob (option_swarm)",
+        ["equal_factors_present", "unary_factor_present", "fill_in_added", "disconnected_tree_refused"],
+    ),
 }
